@@ -15,6 +15,10 @@
 (*                     multiples of 12 units so that every centre for      *)
 (*                     nb <= 3 is an integer (the IEEE arithmetic of the   *)
 (*                     implementation is then exact and comparable).       *)
+(*                     Instances with 4..12 bins use widths that are       *)
+(*                     multiples of 2*nb units (CentreExact); the binary   *)
+(*                     exponent `sc` rescales a unit to 2^sc/16 (5e-324 .. *)
+(*                     1e299) without changing any integer below.          *)
 (*   LatticePts        the starting points of a LatticeSolver: GridPts of  *)
 (*                     the per-dimension centre lists; point n is the      *)
 (*                     centre of grid cell n.                              *)
@@ -33,8 +37,15 @@
 EXTENDS Integers, Sequences, FiniteSets, TLC, Json
 
 CONSTANTS Dims,        \* set of dimensions explored
-          MaxBins,     \* bins per dimension range over 1..MaxBins
-          Bounds       \* set of <<L, U>> pairs (units of 1/Scale, L <= U) a dimension may have
+          MaxBins,     \* largest number of bins per dimension
+          BinChoices,  \* the numbers of bins a dimension may have (a subset of 1..MaxBins: also 4, 5, 7 -- primes and
+                       \* composites -- and the two-digit counts 10 and 12 in the "wide" instances)
+          Bounds,      \* set of <<L, U>> pairs (units of 2^sc/Scale, L <= U) a dimension may have
+          Scales       \* binary exponents sc: a coordinate of u units is the real number u * 2^sc / Scale.  0 in the
+                       \* basic instances; the "scaled" instances use -1070 (one unit = 5e-324, the smallest
+                       \* positive double), -1000 (~1e-300), -30 (~1e-9: more than 8 decimals), 33 (~1e10), 996
+                       \* (~1e300).  Scaling by a power of two changes no integer below, and keeps the IEEE
+                       \* arithmetic of the implementation exact: the SAME points in units are demanded.
 
 Scale == 16
 
@@ -51,7 +62,9 @@ Digit(lens, n, i) == ((n - 1) \div Stride(lens, i)) % lens[i]
 
 Lens(q) == [i \in 1..Len(q) |-> Len(q[i])]
 
-GridPts(q) == [n \in 1..Prod(Lens(q)) |-> [i \in 1..Len(q) |-> q[i][Digit(Lens(q), n, i) + 1]]]
+GridPts(q) == LET lens == Lens(q)      \* (LET definitions are evaluated once: this matters for 12 x 12 bins)
+                  strides == [i \in 1..Len(q) |-> Stride(lens, i)]
+              IN [n \in 1..Prod(lens) |-> [i \in 1..Len(q) |-> q[i][(((n - 1) \div strides[i]) % lens[i]) + 1]]]
 
 (* the same thing enumerated the wrong way round (first dimension fastest): used to show that the
    ordering properties below are not vacuous *)
@@ -78,6 +91,16 @@ RandomlyBinPost(N, ndim, r) ==
      <<"C09:randomly_bin-entries-positive", \A i \in 1..Len(r) : r[i] >= 1>>,
      <<"C09:randomly_bin-product-is-N", Prod(r) = N>> >>
 
+(* randomly_bin(N, ndim, ones, exact) as documented: "exact -- if False, find N-1 bins for prime numbers" (the code does so
+   for primes above 3); ndim = 0 stands for "ndim not given": the length is then free *)
+IsPrime(n) == n > 1 /\ \A d \in 2..(n - 1) : (d * d <= n) => n % d # 0
+RbinProduct(N, exact) == IF ~exact /\ N > 3 /\ IsPrime(N) THEN N - 1 ELSE N
+RandomlyBinPostX(N, ndim, exact, r) ==
+  << <<"C09:randomly_bin-length-is-ndim", ndim # 0 => Len(r) = ndim>>,
+     <<"C09:randomly_bin-entries-positive", \A i \in 1..Len(r) : r[i] >= 1>>,
+     <<IF exact THEN "C09:randomly_bin-product-is-N" ELSE "C09:randomly_bin-product-is-N-or-N-1-for-primes",
+       Prod(r) = RbinProduct(N, exact)>> >>
+
 (* lo, hi, pts[k][i] are ranks of the real numbers (equal numbers have equal ranks) *)
 PointsPost(npts, dim, lo, hi, pts) ==
   << <<"C09:points-count-is-npts", Len(pts) = npts>>,
@@ -89,11 +112,12 @@ Failing(cl) == {cl[i][1] : i \in {j \in DOMAIN cl : ~cl[j][2]}}
 
 -----------------------------------------------------------------------------
 (* case enumeration *)
-VARIABLES dim, nbins, lo, hi
-gvars == <<dim, nbins, lo, hi>>
+VARIABLES dim, nbins, lo, hi, sc
+gvars == <<dim, nbins, lo, hi, sc>>
 
 Init == /\ dim \in Dims
-        /\ nbins \in [1..dim -> 1..MaxBins]
+        /\ sc \in Scales
+        /\ nbins \in [1..dim -> BinChoices]
         /\ \E b \in [1..dim -> Bounds] : lo = [i \in 1..dim |-> b[i][1]] /\ hi = [i \in 1..dim |-> b[i][2]]
 Next == UNCHANGED gvars
 Spec == Init /\ [][Next]_gvars
@@ -103,6 +127,8 @@ NPts == Prod(nbins)
 
 (* the constants keep the arithmetic exact *)
 Exact == \A i \in 1..dim : lo[i] <= hi[i] /\ CentreExact(lo[i], hi[i], nbins[i])
+(* ... and every coordinate u * 2^(sc-4) is a double: a multiple of 2^-1074 below 2^1024 (|u| < 2^31) *)
+Representable == BinChoices \subseteq 1..MaxBins /\ sc - 4 >= -1074 /\ sc + 27 <= 1023
 
 (* exactly as many points as the product of the bins *)
 CountIsProduct == Len(Pts) = NPts
@@ -111,9 +137,12 @@ CountIsProduct == Len(Pts) = NPts
    indices occurs exactly once *)
 FullProduct ==
   LET idx(n) == [i \in 1..dim |-> Digit(nbins, n, i)]
-  IN /\ {idx(n) : n \in 1..NPts} = {f \in [1..dim -> 0..(MaxBins - 1)] : \A i \in 1..dim : f[i] < nbins[i]}
-     /\ Cardinality({idx(n) : n \in 1..NPts}) = NPts
-     /\ \A n \in 1..NPts : \A i \in 1..dim : Pts[n][i] = CentreBins(lo, hi, nbins)[i][idx(n)[i] + 1]
+      all == {idx(n) : n \in 1..NPts}
+      pts == Pts
+      cb == CentreBins(lo, hi, nbins)
+  IN /\ all = {f \in [1..dim -> 0..(MaxBins - 1)] : \A i \in 1..dim : f[i] < nbins[i]}
+     /\ Cardinality(all) = NPts
+     /\ \A n \in 1..NPts : \A i \in 1..dim : pts[n][i] = cb[i][idx(n)[i] + 1]
 
 (* documented order: index tuples increase lexicographically (last dimension fastest) *)
 LexLess(a, b) == \E i \in 1..dim : a[i] < b[i] /\ \A k \in 1..(i - 1) : a[k] = b[k]
@@ -121,17 +150,17 @@ RowMajor == \A n \in 1..(NPts - 1) :
                LexLess([i \in 1..dim |-> Digit(nbins, n, i)], [i \in 1..dim |-> Digit(nbins, n + 1, i)])
 
 (* point n is the centre of its own grid cell, and inside the box *)
-OwnCellCentre == \A n \in 1..NPts : \A i \in 1..dim :
-                    /\ 4 * Pts[n][i] = CellLo2(lo, hi, nbins, n, i) + CellHi2(lo, hi, nbins, n, i)
-                    /\ lo[i] <= Pts[n][i] /\ Pts[n][i] <= hi[i]
-                    /\ (lo[i] < hi[i] => (lo[i] < Pts[n][i] /\ Pts[n][i] < hi[i]))
+OwnCellCentre == LET pts == Pts IN \A n \in 1..NPts : \A i \in 1..dim :
+                    /\ 4 * pts[n][i] = CellLo2(lo, hi, nbins, n, i) + CellHi2(lo, hi, nbins, n, i)
+                    /\ lo[i] <= pts[n][i] /\ pts[n][i] <= hi[i]
+                    /\ (lo[i] < hi[i] => (lo[i] < pts[n][i] /\ pts[n][i] < hi[i]))
 
 (* cells of different points are different: distinct points whenever the box is not degenerate *)
-DistinctIfProper == (\A i \in 1..dim : lo[i] < hi[i]) => Cardinality({Pts[n] : n \in 1..NPts}) = NPts
+DistinctIfProper == (\A i \in 1..dim : lo[i] < hi[i]) => LET pts == Pts IN Cardinality({pts[n] : n \in 1..NPts}) = NPts
 
 (* vacuity companion: column-major enumeration differs from the documented one somewhere *)
 ColMajorNeverDiffers == ColMajorPts(CentreBins(lo, hi, nbins)) = Pts
 
-Emit == PrintT(<<"@@", ToJson([dim |-> dim, nbins |-> nbins, lo |-> lo, hi |-> hi,
+Emit == PrintT(<<"@@", ToJson([dim |-> dim, nbins |-> nbins, lo |-> lo, hi |-> hi, sc |-> sc,
                                bins |-> CentreBins(lo, hi, nbins), pts |-> Pts])>>)
 =============================================================================
